@@ -647,7 +647,7 @@ func writeWakeSlices(w *bufio.Writer, s *vt.Sched, tag string) int {
 			// Restart creates the new channels inside this critical section (notify takes the read lock)
 			add(idx, "kopen")
 		case ev.Kind == "ad:inject":
-			cands = append(cands, cand{idx, t, "kpend " + actor + " 1 1 %s"})
+			cands = append(cands, cand{idx, t, "kforeign 1 %s"})
 		case si.Field == "concurrency" && ev.Kind == "store":
 			if conc0 == "" {
 				conc0 = ev.Val
@@ -763,4 +763,101 @@ func writeRespSlices(w *bufio.Writer, s *vt.Sched, tag string) int {
 		n++
 	}
 	return n
+}
+
+// writePoolSlices emits, per pool node, the events of coq/SlicePool.v. A node is identified by
+// the receiver of its Node.Serve / Send / Stop frames (the pool.Node value sits at offset 0 of
+// its linked-list node).
+func writePoolSlices(w *bufio.Writer, s *vt.Sched, tag string) int {
+	// pre-pass: which node does each server goroutine serve
+	serverNode := map[int]int{}
+	for _, ev := range s.Log {
+		if ev.Kind == "enter" && siteFunc(ev.Site) == "Node.Serve" {
+			if _, ok := serverNode[ev.Tid]; !ok {
+				serverNode[ev.Tid] = ev.Obj
+			}
+		}
+	}
+	lines := map[int][]string{}
+	var order []int
+	emit := func(n int, l string) {
+		if n == 0 {
+			return
+		}
+		if _, ok := lines[n]; !ok {
+			order = append(order, n)
+		}
+		lines[n] = append(lines[n], l)
+	}
+	holder := map[int]int{}      // node -> thread currently known to hold it (fresh / popped / self), -1 none
+	lastSpawned := map[int]int{} // thread -> node it created last
+	lastStopped := map[int]int{} // thread -> node it sent the stop payload to last
+	inList := map[int]bool{}
+	for _, ev := range s.Log {
+		fn := siteFunc(ev.Site)
+		t := ev.Tid
+		switch {
+		case ev.Kind == "go" && strings.HasPrefix(siteName(ev.Site), "worker.initPoolNode/"):
+			child, _ := strconv.Atoi(ev.Val)
+			n := serverNode[child]
+			if n == 0 {
+				continue // the episode ended before the server goroutine ran
+			}
+			emit(n, fmt.Sprintf("ngetspawn %d %d", t, child))
+			holder[n] = t
+			lastSpawned[t] = n
+			inList[n] = false
+		case ev.Kind == "lock" && fn == "List.PushNode":
+			n := 0
+			if sn, ok := serverNode[t]; ok && holder[sn] == t {
+				n = sn
+			} else if ls := lastSpawned[t]; ls != 0 && holder[ls] == t {
+				n = ls
+			}
+			if n != 0 {
+				emit(n, fmt.Sprintf("npush %d", t))
+				holder[n] = -1
+				inList[n] = true
+			}
+		case ev.Kind == "send" && (fn == "Node.Send" || fn == "Node.Stop"):
+			n := ev.Owner
+			if holder[n] != t {
+				// the sender took the node out of the list (PopBack / Remove == true) some steps ago
+				emit(n, fmt.Sprintf("npop %d", t))
+				holder[n] = t
+				inList[n] = false
+			}
+			if fn == "Node.Send" {
+				emit(n, fmt.Sprintf("nsendjob %d", t))
+				holder[n] = -1
+			} else {
+				emit(n, fmt.Sprintf("nsendstop %d", t))
+				lastStopped[t] = n
+			}
+		case ev.Kind == "recv" && fn == "Node.Serve":
+			n := ev.Owner
+			if strings.HasSuffix(ev.Val, "true}") {
+				emit(n, fmt.Sprintf("nrecvjob %d", t))
+				holder[n] = t
+			} else if strings.HasPrefix(ev.Val, "1") {
+				emit(n, fmt.Sprintf("nrecvstop %d", t))
+			}
+		case ev.Kind == "poolput":
+			if n := lastStopped[t]; n != 0 {
+				emit(n, fmt.Sprintf("nput %d", t))
+				lastStopped[t] = 0
+				holder[n] = -1
+			}
+		}
+	}
+	k := 0
+	for _, n := range order {
+		fmt.Fprintf(w, "POOL %s o%d\n", tag, n)
+		for _, l := range lines[n] {
+			w.WriteString("p " + l + "\n")
+		}
+		fmt.Fprintf(w, "ENDPOOL\n")
+		k++
+	}
+	return k
 }
